@@ -234,8 +234,17 @@ def random_out(rep, prog, f, c, tag):
                 if ty.startswith("&mut") and w.path in ("core::slice::<impl [T]>::fill", "zeroize::Zeroize::zeroize",
                                                        "core::slice::<impl [T]>::copy_from_slice", "types::MutBytes::copy_from_slice") and i == 0:
                     bad.append(w)
+    # growing/shrinking the buffer after the draw appends constant bytes (or drops random ones)
+    for w in f.calls():
+        if w.bb not in after or w.bb == c.bb or not w.args:
+            continue
+        if w.name in ("resize", "extend_from_slice", "push", "truncate", "extend", "insert", "append", "resize_with") and (
+                w.path.startswith(("std::vec::Vec", "types::ResizableBytes", "std::iter::Extend")) or w.is_local):
+            ls = list(operand_locals(w.args[0]))
+            if ls and cm.view_info(f, ls[0])[0] == root:
+                bad.append(w)
     rep.ob("RANDOM-OUT", inst + "|not-overwritten", not bad,
-           "after the RNG call the whole buffer is %s" % ("not overwritten" if not bad else "overwritten by %s" % [w.loc() + " " + w.name for w in bad]),
+           "after the RNG call the whole buffer is %s" % ("neither overwritten nor resized" if not bad else "overwritten/resized by %s" % [w.loc() + " " + w.name for w in bad]),
            loc=c.loc())
 
 
